@@ -342,6 +342,31 @@ class _NS:
         self.__dict__.update(d)
 
 
+class RuntimeContractUnit(Unit):
+    """bounded stand-in for a function whose obligations the solvers do not discharge: the same
+    sidecar contract is evaluated on the real function at random admissible inputs"""
+    kind = 'bounded'
+
+    def __init__(self, module, name, n_quick=300, n_thorough=5000):
+        self.module, self.name, self.nq, self.nt = module, name, n_quick, n_thorough
+
+    def label(self):
+        return 'bounded.runtime_contract.%s.%s' % (self.module, self.name)
+
+    def run(self, tier, seed):
+        fu = FuncUnit(self.module, self.name)
+        k = fu.contract()
+        n = self.nq if tier == 'quick' else self.nt
+        val, nat, samples = fu.validate(k, [], random.Random(seed), n)
+        fails = [{'clause': f['clause'], 'inputs': f['inputs'], 'detail': f['detail']} for f in nat['failures'][:3]]
+        return {'unit': self.label(), 'functions': [], 'obligations': [], 'notes': [], 'validation': None,
+                'native': None,
+                'bounded': {'name': 'runtime_contract.%s.%s' % (self.module, self.name),
+                            'what': 'every clause of the sidecar contract of %s.%s evaluated on the real function '
+                                    '(tolerance 1e-7 relative)' % (self.module, self.name),
+                            'samples': nat['samples'], 'failures': fails}}
+
+
 class BoundedUnit(Unit):
     """a bounded stand-in: native sampling of a statement on the real code.  Reported under
     bounded_standins with its bound; never counted as a discharged obligation.  A failing
